@@ -100,7 +100,10 @@ theorem L_stream_packet (e : Endpoint) (S : SStream) (now : Nat) (start : Int) (
     (e.decodeInputs now start (Codec.encode (S.refAt start) (S.slice start n))).lastRecvFrame
       ≤ max e.lastRecvFrame (start + (n : Int) - 1) ∧
     (start = nextFrame e S →
-      (e.decodeInputs now start (Codec.encode (S.refAt start) (S.slice start n))).lastRecvFrame = start + (n : Int) - 1) := by
+      (e.decodeInputs now start (Codec.encode (S.refAt start) (S.slice start n))).lastRecvFrame = start + (n : Int) - 1) ∧
+    (∀ ref inputs, alookup (if e.lastRecvFrame == NULL_FRAME then NULL_FRAME else start - 1) e.recvInputs = some ref →
+      Codec.decode ref (Codec.encode (S.refAt start) (S.slice start n)) = .ok inputs →
+      (Endpoint.acceptInputs { e with runningLastInputRecv := now } start inputs 0).2 = true) := by
   have hnull : NULL_FRAME = (-1 : Int) := rfl
   unfold Endpoint.decodeInputs
   simp only
@@ -116,7 +119,10 @@ theorem L_stream_packet (e : Endpoint) (S : SStream) (now : Nat) (start : Int) (
       rw [h.fresh h0] at hlk
       cases hlk
     refine ⟨RInv_congr h hr rfl, rfl, fun h0 => absurd h0 hcontra,
-      by rw [lastRecvFrame_eq, lastRecvFrame_eq, hr]; exact Int.le_refl _, ?_, ?_, ?_, ?_⟩
+      by rw [lastRecvFrame_eq, lastRecvFrame_eq, hr]; exact Int.le_refl _, ?_, ?_, ?_, ?_, ?_⟩
+    rotate_left 4
+    · intro ref inputs h1 _
+      cases h1
     · rw [nextFrame_congr hr]
       simp [evsRange, Endpoint.sendInputAck, Endpoint.queueMessage]
     · have hl : (e.sendInputAck now).lastRecvFrame = e.lastRecvFrame := by
@@ -203,7 +209,13 @@ theorem L_stream_packet (e : Endpoint) (S : SStream) (now : Nat) (start : Int) (
     obtain ⟨hinv4, hL4⟩ := RInv_prune (e2.sendInputAck now) S hinv3
       ((e2.sendInputAck now).lastRecvFrame - 2 * ((e2.sendInputAck now).maxPrediction : Int)) (by omega)
       (by rw [hL3]; exact hL2ne)
-    refine ⟨hinv4, ?_, ?_, ?_, ?_, ?_, ?_, ?_⟩
+    refine ⟨hinv4, ?_, ?_, ?_, ?_, ?_, ?_, ?_, ?_⟩
+    rotate_left 7
+    · intro ref' inputs' h1 h2
+      cases h1
+      rw [hdec] at h2
+      cases h2
+      rw [hacc]
     rotate_left 4
     · rw [hL4, hL3]
       show e2.sendQueue ++ [⟨e2.magic, .inputAck e2.lastRecvFrame⟩] = _
@@ -295,7 +307,7 @@ theorem L_stream_run (S : SStream) (now : Nat) (hsize : S.width ≤ 65535) :
   | cons p rest ih =>
     intro e h hok hfirst
     have hp := hok p List.mem_cons_self
-    obtain ⟨hinv1, hh1, hne1, hge1, hev1, _, _, _⟩ := L_stream_packet e S now p.1 p.2 h hp.pos hp.lo hp.hi
+    obtain ⟨hinv1, hh1, hne1, hge1, hev1, _, _, _, _⟩ := L_stream_packet e S now p.1 p.2 h hp.pos hp.lo hp.hi
       (fun h0 => hfirst h0 p rfl) hsize hp.cap
     simp only [runPackets]
     generalize he1 : e.decodeInputs now p.1 (Codec.encode (S.refAt p.1) (S.slice p.1 p.2)) = e1 at *
